@@ -279,6 +279,28 @@ def elem(t):
     return UNK
 
 
+def join_types(ts):
+    """several candidate types (virtual dispatch to getters of different subclasses) -> one type"""
+    uniq = []
+    for t in ts:
+        if t not in uniq:
+            uniq.append(t)
+    if len(uniq) == 1:
+        return uniq[0]
+    if all(isinstance(t, tuple) and t and t[0] == "seq" for t in uniq):
+        return ("seq", join_types([t[1] for t in uniq]))
+    flat = []
+    for t in uniq:
+        if isinstance(t, tuple) and t and t[0] == "union":
+            flat += [x for x in t[1] if x not in flat]
+        elif isinstance(t, str) and t not in (UNK, NONE):
+            if t not in flat:
+                flat.append(t)
+        else:
+            return uniq[0]
+    return ("union", tuple(flat)) if len(flat) > 1 else (flat[0] if flat else uniq[0])
+
+
 BINOPS = {ast.Add: "__add__", ast.Sub: "__sub__", ast.Mult: "__mul__",
           ast.Div: "__truediv__", ast.BitOr: "__or__", ast.BitAnd: "__and__",
           ast.BitXor: "__xor__"}
@@ -494,7 +516,7 @@ class Infer:
                     if (k, name) in FIELD_TYPES:
                         res.append(FIELD_TYPES[(k, name)])
         if res:
-            return res[0]
+            return join_types(res)
         if rt == EXT:
             return EXT
         return ("attr?", e.attr) if rt == UNK else UNK
